@@ -155,6 +155,19 @@ func runC18(c *Ctx) {
 		sessLen = kd
 	}
 	d = append(d, "sessionenckey="+kd)
+	// the optional user token has a key of its own, substituted like the others
+	userTok, userLen := false, "32"
+	if keyFocus && c.T.Bool(1, 2) {
+		userTok = true
+		cfg.EnableUserToken = true
+		cfg.UsernameTemplate = "{{ username }}||{{ token }}"
+		cfg.UserEncKey, omit, kd = keyOfLen(c, "userenc")
+		cfg.OmitKeys["UserTokenEncryptionKey"] = omit
+		userLen = kd
+		cfg.PAAEncKey, omit, kd = keyOfLen(c, "paaenc")
+		cfg.OmitKeys["PAATokenEncryptionKey"] = omit
+		d = append(d, "usertoken-enckey="+userLen, "paa-enckey="+kd)
+	}
 	// some settings given through the environment instead of (or on top of) the file
 	via := c.T.Weighted(3, 1)
 	if via == 1 {
@@ -304,6 +317,10 @@ func runC18(c *Ctx) {
 			return
 		}
 		fr := b.Get("/connect")
+		if !gotFile(fr) && userTok && userLen != "32" && paaLen == "32" {
+			c.S.Fail("C18", "runs-with-short-key:user-token", "%s: user tokens are enabled with a %s-character encryption key and the download fails with %d %.80q: the key was not substituted by a usable random one", descr, userLen, fr.Status, fr.Body)
+			return
+		}
 		if !gotFile(fr) {
 			if paaLen != "32" {
 				c.S.Fail("C18", "runs-with-short-key", "%s: the instance keeps the configured %s-character signing key instead of substituting a random one: download fails with %d %.80q", descr, paaLen, fr.Status, fr.Body)
@@ -315,6 +332,20 @@ func runC18(c *Ctx) {
 		f := env.ParseRDP(fr.Body)
 		tok := f.Values["gatewayaccesstoken"]
 		cookieA := b.Jar["RDPGWSESSION"]
+		if userTok {
+			// the file must carry a user token (five segments): it can only be made under a
+			// 32-character key, configured or substituted
+			parts := strings.SplitN(f.Values["username"], "||", 2)
+			if len(parts) != 2 || strings.Count(parts[1], ".") != 4 {
+				if userLen != "32" {
+					c.S.Fail("C18", "runs-with-short-key:user-token", "%s: user tokens are enabled with a %s-character encryption key, yet the issued file carries no user token (username line %.60q): the key was not substituted by a usable random one", descr, userLen, f.Values["username"])
+					return
+				}
+				c.Infra("no user token in the issued file: %.80q", f.Values["username"])
+				return
+			}
+			c.S.Count("probe.user_token_issued")
+		}
 		if paaLen != "32" {
 			c.S.Count("probe.short_signing_key")
 			if codec.VerifyHS256(tok, []byte(cfg.PAASigningKey)) || codec.VerifyHS256(tok, nil) {
